@@ -17,7 +17,7 @@ from sa.q import Fn, flatten_cond, inside, raise_class, raise_kw
 from sa.report import AnalysisError
 
 from . import tlsfacts as T
-from .c11 import load_ref, transitions_and_typestate
+from .c11 import load_ref, transitions_after, transitions_and_typestate
 
 LEVEL = "other"
 
@@ -125,12 +125,12 @@ def run(repo, chk):
         chk.ob("R1", "_set_peer_certificate: leaf is the first certificate of the message", "certificates[0][0]" in norm(v), f"assigned {norm(v)[:80]}", sp.loc(st))
 
     # ---- R1: the dominance obligations shared with C11 --------------------------------
-    for spec in ref["transition_after"] + ref["key_release"]:
+    transitions_after(repo, chk, ref, "R1")
+    for spec in ref["key_release"]:
         fn = Fn(repo, T.CTX + spec["function"])
         if "after_failing" in spec:
             g = spec["after_failing"]
-            targets = [c for c in fn.calls(name="self._set_state")] if "direction" not in spec else [n for dd, e, n in T.key_releases(repo, fn) if dd == spec["direction"] and e == spec["epoch"]]
-            for c in targets:
+            for c in [n for dd, e, n in T.key_releases(repo, fn) if dd == spec["direction"] and e == spec["epoch"]]:
                 chk.ob("R1", f"{spec['function']}: `{norm(c)[:50]}` dominated by the successful comparison {g['contains']}", bool(Fn.find_guards(fn.guard_atoms_x(c), g["op"], g["holds"], g["contains"])), f"path condition {fn.guard_atoms_x(c)}", fn.loc(c))
     # the comparison's failure raises the decrypt alert
     for fname in ("_client_handle_finished", "_server_handle_finished"):
@@ -212,7 +212,7 @@ def run(repo, chk):
         chk.ob("R3", f"_parse_transport_parameters: {field} != {local} raises {code}", bool(rs), "authentication comparison no longer guards a raise", tp.loc(tp.node))
         for r in rs:
             g = tp.lexical_guards(r)
-            extra = [a for a in g if not (field in a[0] or "from_session_ticket" in a[0] or "self._is_client" in a[0] or "version_information" in a[0])]
+            extra = [a for a in g if not ((field in a[0] and local in a[0]) or "from_session_ticket" in a[0] or a[0] == "self._is_client" or (field == "chosen_version" and a[0].endswith("version_information is not None")))]
             chk.ob("R3", f"_parse_transport_parameters: the {field} check is not conditional on peer input", not extra, f"additional guards {extra}", tp.loc(r))
     # who records the local reference values
     rd = Fn(repo, "quic.connection:QuicConnection.receive_datagram")
